@@ -22,6 +22,9 @@ W = f'/tmp/kvcov/{os.getpid()}'
 os.makedirs(W + '/prof', exist_ok=True)
 os.makedirs(W + '/cases', exist_ok=True)
 subprocess.run(['rsync', '-a', '--exclude', 'target', a.verif + '/harness/', W + '/harness/'], check=True)
+# some generators read regenerated tables relative to the harness directory (../lean/KVerif/Gen/...)
+if not os.path.exists(W + '/lean'):
+    os.symlink(a.verif + '/lean', W + '/lean')
 ct = W + '/harness/Cargo.toml'
 txt = open(ct).read()
 txt = re.sub(r'path = "[^"]*?(/parser|/keyberon)?"', lambda m: 'path = "%s%s"' % (a.repo, m.group(1) or ''), txt)
@@ -61,7 +64,8 @@ rep = subprocess.run([tb + '/llvm-cov', 'report', K, '-instr-profile=' + W + '/a
                      capture_output=True, text=True).stdout
 for l in rep.splitlines():
     f = l.split()
-    if len(f) >= 10 and (f[0].startswith(a.repo.lstrip('/')) or f[0].startswith(a.repo) or f[0] == 'TOTAL'):
+    # llvm-cov prints names relative to the common prefix of the listed files
+    if len(f) >= 10 and re.search(r'(^|/)(src|keyberon|parser|tcp_protocol)/|^TOTAL$', f[0]):
         print('%-58s lines %6s missed %6s %8s' % (f[0], f[7], f[8], f[9]))
 for src in a.show:
     print('=== uncovered lines of', src)
